@@ -24,7 +24,7 @@ impl Prop for P {
     fn meta() -> Meta {
         Meta {
             level: "exploration",
-            rule: "plaintext recipe x compressor configuration (4 constructors, level -1..12, strategy -1..5, raw/zlib, window_bits 0..16) x schedule of (input chunk incl. empty, output buffer 1 byte..1 MiB incl. the 85196 direct-write threshold, one of the 8 flush modes) with Finish sticky, each through core::compress, core::compress_to_output (callback) and stream::deflate, in release and debug-assertion builds; oracle: per-call counts within what was offered, no error status on a legal schedule, finishing phase bounded and progressing, concatenated output Valid for the reference inflater with consumed == total length and plaintext == concatenated input. Non-trivial = a call returned with its output buffer full while work remained, or a mid-stream flush, or the input was split; distinct by case fingerprint",
+            rule: "plaintext recipe x compressor configuration (5 constructors incl. hand-composed flag words, level -1..12, strategy -1..5, raw/zlib, window_bits 0..16) x schedule of (input chunk incl. empty, output buffer 1 byte..1 MiB incl. the 85196 direct-write threshold, one of the 8 flush modes) with Finish sticky, each through core::compress, core::compress_to_output (callback) and stream::deflate, in release and debug-assertion builds; oracle: per-call counts within what was offered, no error status on a legal schedule, finishing phase bounded and progressing, concatenated output Valid for the reference inflater with consumed == total length and plaintext == concatenated input. Non-trivial = a call returned with its output buffer full while work remained, or a mid-stream flush, or the input was split; distinct by case fingerprint",
             assumptions: &["reference inflater (self-checked)", "'legal' = any sequence of the 8 flush modes in which Finish, once issued, is repeated until the stream ends"],
             dbg: true,
             simd: false,
